@@ -3,7 +3,11 @@
 // the library's key input, and an emulator answering cursor-position queries.
 package harness
 
-import "verif/internal/vt"
+import (
+	"encoding/json"
+
+	"verif/internal/vt"
+)
 
 // HistSpec describes one history source bound to the shell before the first call.
 type HistSpec struct {
@@ -125,6 +129,9 @@ type Job struct {
 	Calls  [][]Answer
 	Want   Want
 	Script *ScriptPlan `json:",omitempty"` // when set, the single call is driven by it
+	// Sched, when set, is the JSON spec of one execution under the schedule explorer
+	// (Engine B, instrumented build only); the result comes back in Trace.Sched.
+	Sched json.RawMessage `json:",omitempty"`
 }
 
 // Obs is what oracles read, all through the public API.
@@ -188,7 +195,8 @@ type Call struct {
 type Trace struct {
 	ID       int
 	Calls    []Call
-	InitHash string `json:",omitempty"`
-	Err      string `json:",omitempty"` // harness error (never a violation)
-	Micros   int64  // wall time of the execution in the worker
+	InitHash string          `json:",omitempty"`
+	Err      string          `json:",omitempty"` // harness error (never a violation)
+	Micros   int64           // wall time of the execution in the worker
+	Sched    json.RawMessage `json:",omitempty"`
 }
